@@ -18,7 +18,7 @@ from .index import AnalysisError, Index
 from .report import Report, VERIF
 
 PROPS = ["C01", "C02", "C03", "C04", "C05", "C06", "C07", "C08", "C09", "C10",
-         "C11", "C12", "C13", "C14", "C16", "C17", "C18", "C19"]
+         "C11", "C12", "C13", "C14", "C15", "C16", "C17", "C18", "C19", "C20"]
 
 
 def anchor_files(prop: str):
